@@ -370,6 +370,157 @@ for _ev in EVENTS:
 
 
 # ----------------------------------------------------------------------------
+# the parseRMATS command: thresholds reach the record classes under the right names; every record is kept
+# ----------------------------------------------------------------------------
+PRC = 'moPepGen/cli/parse_rmats.py'
+
+
+@register
+class RmatsCLI(Contract):
+    """for every event file given and every row: convert_to_variant_records receives the annotation, the genome and --min-ijc / --min-sjc
+    bound (by Python's own argument binding on the real signature of the record class) to min_ijc / min_sjc; every returned record is
+    stored under its transcript; a row is counted as succeeded or skipped; a failure propagates"""
+    path, qualname, props = PRC, 'parse_rmats', ('C16',)
+    assumptions = ('havoc: RMATSParser.parse yields the rows of a file; convert_to_variant_records returns a collection of records or raises '
+                   '(its gating is proved separately); output sorting and writing are external; one event file given at a time (the five '
+                   'per-type blocks are independent)',)
+    KINDS = ('SE', 'A5SS', 'A3SS', 'MXE', 'RI')
+    CLASSES = dict(SE='SERecord', A5SS='A5SSRecord', A3SS='A3SSRecord', MXE='MXERecord', RI='RIRecord')
+
+    def setup(self, I):
+        e = I.e
+        st = types.SimpleNamespace(calls=[], stored=[], log=[])
+        st.min_ijc, st.min_sjc = e.int('min_ijc'), e.int('min_sjc')
+        dests = parser_dests('moPepGen.cli.parse_rmats', 'add_subparser_parse_rmats')
+        # one event file at a time (or none): the per-type blocks of the command are independent of each other
+        which = e.choose(len(self.KINDS) + 1, 'which event file is given')
+        files = dict(skipped_exon='SE', alternative_5_splicing='A5SS', alternative_3_splicing='A3SS', mutually_exclusive_exons='MXE', retained_intron='RI')
+        known = dict(output_path=OpaqueStr(['out']), min_ijc=st.min_ijc, min_sjc=st.min_sjc, source='rMATS')
+        for opt, kind in files.items():
+            known[opt] = SymObj('EventFile', kind=kind) if which < len(self.KINDS) and self.KINDS[which] == kind else None
+        st.args_obj = real_namespace(dests, known)
+        st.anno, st.genome = SymObj('AnnoStub16c'), SymObj('GenomeStub16c')
+        st.args = [st.args_obj]
+        self._cur = st
+        return st
+
+    @property
+    def models(self):
+        c = self
+
+        def inst(reg):
+            noop = lambda I, a, k: None
+            reg.func_('moPepGen/cli/common.py', 'validate_file_format', noop)
+            reg.func_('moPepGen/cli/common.py', 'print_start_message', noop)
+            reg.func_('moPepGen/cli/common.py', 'load_references', lambda I, a, k: (c._cur.genome, c._cur.anno, None, None))
+            reg.func_('moPepGen/cli/common.py', 'generate_metadata', lambda I, a, k: SymObj('Metadata'))
+            reg.strict_attr_classes = {'Namespace'}
+            reg.protocol_('EventFile', '__bool__', lambda I, o: True)
+
+            def parse(I, a, k):
+                path, kind = a[0], a[1]
+                I.e.prove('C16/cli/each-file-is-parsed-as-its-own-event-type', isinstance(path, SymObj) and path.fields['kind'] == kind)
+                n = I.e.int('n_rows')
+                I.e.assume(n >= 0)
+                return FnView(n, lambda i: SymObj('EventRow', kind=kind, idx=i if is_z3(i) else z3.IntVal(i), gene_id='G'), tag='rows')
+            reg.func_(RM + '__init__.py', 'parse', parse)
+            reg.ext_('RMATSParser.parse', parse)
+
+            def convert(I, o, a, k):
+                st = c._cur
+                from pyvc.interp import Env
+                cls, fnode = I.repo.find_method(c.CLASSES[o.fields['kind']], 'convert_to_variant_records')
+                env = Env({})
+                I.bind_args(fnode.args, [o] + list(a), dict(k), env, 'convert_to_variant_records')
+                b = env.vars
+                I.e.prove('C16/cli/thresholds-and-references-reach-the-parameters-of-the-same-name',
+                          b.get('min_ijc') is st.min_ijc and b.get('min_sjc') is st.min_sjc and b.get('anno') is st.anno and b.get('genome') is st.genome)
+                st.calls.append(o.fields['idx'])
+                if I.e.choose(2, 'convert outcome') == 1:
+                    raise PyRaise(SymExc('<any>', ['failure']))
+                n = I.e.int('n_records')
+                I.e.assume(n >= 0)
+                st.nrec = n
+                return FnView(n, lambda j: SymObj('VarRec16', j=j if is_z3(j) else z3.IntVal(j), transcript_id=SymObj('TxKey16', j=j)), tag='records')
+            reg.method_('EventRow', 'convert_to_variant_records', convert)
+
+            class Variants:
+                def sym_contains(s_, I2, key):
+                    return I2.e.bool('transcript_already_has_records')
+
+                def sym_setitem(s_, I2, key, v):
+                    c._cur.log.append(('new', key))
+
+                def sym_getitem(s_, I2, key):
+                    class S_:
+                        def sym_iter_concrete(s2, I3):
+                            return []
+
+                        def sym_method(s2, I3, name, a, k):
+                            if name == 'add':
+                                c._cur.stored.append((key, a[0]))
+                                return None
+                            raise Unsupported(name)
+                    return S_()
+
+                def sym_truth(s_, I2):
+                    return I2.e.bool('any_record')
+
+                def sym_method(s_, I2, name, a, k):
+                    if name == 'keys':
+                        return FnView(I2.e.int('n_keys'), lambda i: SymObj('TxKey16', j=i), tag='keys')
+                    raise Unsupported(name)
+            c.Variants = Variants
+            reg.method_('AnnoStub16c', 'get_transcript_rank', lambda I, o, a, k: SymObj('Rank'))
+            reg.method_('Sorted16', 'extend', lambda I, o, a, k: None)
+            reg.sorted_hooks.append(lambda I, items, kw: items if isinstance(items, FnView) else None)
+            reg.func_('moPepGen/seqvar/io.py', 'write', lambda I, a, k: None)
+            reg.ext_('seqvar.io.write', lambda I, a, k: None)
+        return (inst,)
+
+    def havoc(self, I, env, k):
+        e = I.e
+        t = env['tally']
+        for n in ('total', 'succeed', 'skipped'):
+            t.fields[n] = e.int(f't_{n}')
+        env['variants'] = self.Variants()
+
+    def inv(self, I, env, k):
+        t = env['tally']
+        return [('rows-read=succeeded+skipped', z3.And(t.fields['total'] == t.fields['succeed'] + t.fields['skipped'], t.fields['succeed'] >= 0, t.fields['skipped'] >= 0))]
+
+    def head_rows(self, I, env, k):
+        self._cur.pre = dict(nc=len(self._cur.calls))
+
+    def step_rows(self, I, env, k):
+        st = self._cur
+        new = st.calls[st.pre['nc']:]
+        return [('each-row-converted-once', len(new) == 1 and z3.is_true(z3.simplify(new[0] == k)))]
+
+    def head_recs(self, I, env, k):
+        self._cur.ns = len(self._cur.stored)
+
+    def step_recs(self, I, env, k):
+        st = self._cur
+        new = st.stored[st.ns:]
+        ok = len(new) == 1 and z3.is_true(z3.simplify(new[0][1].fields['j'] == k)) and new[0][0] is new[0][1].fields['transcript_id']
+        return [('every-returned-record-stored-under-its-transcript', ok)]
+
+    @property
+    def loops(self):
+        T = lambda I, env, k: []
+        # 0: input-file validation, 1: event types (concrete list), 2: rows, 3: records of a row, 4: output keys
+        return {0: LoopSpec(inv=T), 2: LoopSpec(inv=self.inv, havoc=self.havoc, on_head=self.head_rows, step=self.step_rows),
+                3: LoopSpec(inv=T, on_head=self.head_recs, step=self.step_recs),
+                4: LoopSpec(inv=T, havoc=lambda I, env, k: env.__setitem__('variants_sorted', SymObj('Sorted16')))}
+
+    def post_raise(self, I, st, exc):
+        I.e.prove('C16/cli/raise/only-a-failure-of-a-row-conversion-propagates', exc.cls == '<any>')
+        if exc.cls == 'AttributeError':
+            I.e.prove(f'C16/cli/every-option-read-is-defined-by-the-parser:{exc.msg}', False)
+
+
+# ----------------------------------------------------------------------------
 # Native side: small-scope isoform reconstruction through the real parser classes
 # ----------------------------------------------------------------------------
 from pyvc.native import NativeCheck
@@ -465,6 +616,10 @@ class NativeRmats(NativeCheck):
         rng = random.Random(inp['seed'])
         kind, strand = inp['kind'], inp['strand']
         A, B, fields = make_event(rng, kind, strand)
+        if kind == 'RI' and inp['which'] == 'both' and rng.random() < 0.6:
+            # the annotated isoform that retains the intron need not start / end where the flanking exons do
+            u0, u1, d0, d1 = fields['upstream_exon_start'], fields['upstream_exon_end'], fields['downstream_exon_start'], fields['downstream_exon_end']
+            A = [((a + rng.randint(0, max(0, u1 - u0 - 2)), b - rng.randint(0, max(0, d1 - d0 - 3))) if (a, b) == (u0, d1) else (a, b)) for a, b in A]
         txs = {'A': [('TA', A)], 'B': [('TB', B)], 'both': [('TA', A), ('TB', B)]}[inp['which']]
         gs, ge = 10, 120
         anno = realobj.anno_from([dict(id='G', start=gs, end=ge, strand=strand, transcripts=[t for t, _ in txs])],
@@ -513,4 +668,62 @@ class NativeRmats(NativeCheck):
         return (inp['seed'],)
 
 
-NATIVE = [NativeRmats()]
+class NativeRmatsCLI(NativeCheck):
+    name = 'rmats_cli_thresholds'
+    props = ('C16',)
+    functions = (f'{PRC}:parse_rmats',)
+    bounded_for = ''
+    bound = ('the real parseRMATS command on the demo rMATS tables (SE, A5SS, A3SS, MXE, RI) and annotation under threshold pairs '
+             '(min_ijc, min_sjc) in {1, 4, 1000}^2: the written records equal those the record classes return for the same thresholds')
+    quick_budget_s = 60
+    thorough_budget_s = 200
+
+    def cases(self, rng, tier):
+        for a in (1, 4, 1000):
+            for b in (1, 4, 1000):
+                if tier == 'thorough' or a != b or a == 1:
+                    yield dict(min_ijc=a, min_sjc=b)
+
+    def from_model(self, model):
+        return dict(min_ijc=1, min_sjc=1000)
+
+    def check(self, inp):
+        import argparse, tempfile, shutil, os
+        from pathlib import Path
+        from moPepGen import cli
+        from moPepGen.parser import RMATSParser
+        from . import cv_run
+        data = Path(os.environ.get('PYVC_REPO', '/repo')) / 'test' / 'files'
+        asd = data / 'alternative_splicing'
+        files = dict(skipped_exon=asd / 'rmats_se_case_1.SE.JC.txt', alternative_5_splicing=asd / 'rmats_a5ss_case_1.A5SS.JC.txt',
+                     alternative_3_splicing=asd / 'rmats_a3ss_case_1.A3SS.JC.txt', mutually_exclusive_exons=asd / 'rmats_mxe_case_1.MXE.JC.txt',
+                     retained_intron=asd / 'rmats_ri_case_1.RI.JC.txt')
+        d = Path(tempfile.mkdtemp(prefix='verif_c16_'))
+        try:
+            args = argparse.Namespace(command='parseRMATS', output_path=d / 'out.gvf', source='rMATS', min_ijc=inp['min_ijc'], min_sjc=inp['min_sjc'],
+                                      index_dir=None, genome_fasta=data / 'genome.fasta', annotation_gtf=data / 'annotation.gtf', proteome_fasta=None,
+                                      reference_source=None, quiet=True, debug_level=1, **files)
+            cli.parse_rmats(args)
+            got = set()
+            if (d / 'out.gvf').exists():
+                for line in open(d / 'out.gvf'):
+                    if not line.startswith('#'):
+                        f = line.rstrip('\n').split('\t')
+                        got.add((f[0], f[1], f[2], f[4], f[7]))
+            anno, genome, _ = cv_run.demo_reference()
+            want = set()
+            kinds = dict(skipped_exon='SE', alternative_5_splicing='A5SS', alternative_3_splicing='A3SS', mutually_exclusive_exons='MXE', retained_intron='RI')
+            for opt, path in files.items():
+                for rec in RMATSParser.parse(path, kinds[opt]):
+                    for v in rec.convert_to_variant_records(anno=anno, genome=genome, min_ijc=inp['min_ijc'], min_sjc=inp['min_sjc']):
+                        f = v.to_string().split('\t')
+                        want.add((f[0], f[1], f[2], f[4], f[7]))
+            if got != want:
+                return dict(call=f"parseRMATS --min-ijc {inp['min_ijc']} --min-sjc {inp['min_sjc']}", observed=f'{len(got)} records; only in output: {sorted(got - want)[:3]}',
+                            expected=f'{len(want)} records; missing: {sorted(want - got)[:3]}', signature='cli-differs-from-record-classes')
+        finally:
+            shutil.rmtree(d, ignore_errors=True)
+        return None
+
+
+NATIVE = [NativeRmats(), NativeRmatsCLI()]
